@@ -134,6 +134,9 @@ func c04(c *Ctx) {
 	rd.remainingSign("C04.top-bit")
 	rd.sticky("C04.sticky")
 	rd.close1002("C04.close-1002")
+	flateWrapperRule(c, "C04.error-reaches-reader") // ... and keeps reporting it: the inflater is given up only at EOF
+	r.Rule("C04.control-bodies-readable", "a control frame body of any legal size can be read, so that its validation (close code, UTF-8) and the 1002 reply happen instead of a buffer error (same rule as C08.read-buffer)")
+	c08readBufferAs(c, rd, "C04.control-bodies-readable")
 	// the value whose top bit is tested is the full 64-bit length the peer sent
 	rd.parserRules("C04.top-bit", "", "", "")
 	r.Rule("C04.error-reaches-reader", "the error of the violating frame reaches whoever is reading the current message: every Read method layered over the message reader (decompression source, JoinMessages, ...) passes inner errors other than io.EOF on instead of ending the message cleanly (same rule as C05.reader-wrappers)")
